@@ -793,6 +793,17 @@ def _class_constant(mod, ci, attr):
         and not any(isinstance(n, ast.Call) and isinstance(n.func, ast.Name) and n.func.id in ("setattr", "delattr") for n in ast.walk(mod.tree))
 
 
+def _class_param(fi):
+    """the name under which a classmethod receives its class (None for any other function)"""
+    node = getattr(fi, "node", None)
+    if node is None or getattr(fi, "cls", None) is None or not getattr(node, "decorator_list", None):
+        return None
+    if any(A.dotted(d) in ("classmethod", "builtins.classmethod") for d in node.decorator_list):
+        ps = [a.arg for a in list(getattr(node.args, "posonlyargs", [])) + list(node.args.args)]
+        return ps[0] if ps else None
+    return None
+
+
 def outliving_state_reads(fa, expr, at, _depth=2, _seen=()):
     """What the value of `expr` (at CFG node `at`) is read from that outlives the call and can be rebound or
     changed by another one: names the function declares global / nonlocal and reads before it has assigned them,
@@ -831,6 +842,12 @@ def outliving_state_reads(fa, expr, at, _depth=2, _seen=()):
                 ci = mod.classes[parts[0]]
                 if parts[1] not in ci.methods and parts[1] not in getattr(ci, "nested", {}) and not _class_constant(mod, ci, parts[1]):
                     out.add(name)
+            elif len(parts) > 1 and parts[0] == _class_param(fa.fi) and getattr(fa.fi, "cls", None) is not None:
+                # the class itself, as a classmethod receives it: what it holds is shared by every call
+                ci = fa.fi.cls
+                if parts[1] not in ci.methods and parts[1] not in getattr(ci, "nested", {}) and not _class_constant(mod, ci, parts[1]) \
+                        and not (parts[1].startswith("__") and parts[1].endswith("__")):
+                    out.add("%s.%s" % (ci.name, ".".join(parts[1:])))
     # an attribute read off the class of an object: type(x).attr
     try:
         full = fexpand(fa, expr, at)
